@@ -11,6 +11,7 @@ structure ALwf (i : Input) (al : AList) : Prop where
   shape : ∀ e ∈ al, ∀ a ∈ e.2, a.ctx = none → NAShape a
   cshape : ∀ e ∈ al, ∀ a ∈ e.2, ∀ c, a.ctx = some c →
     (a.name.toList.head? == some '*') = true ∧ NAShapeOn (effName a.name.toList) a
+  nostar : ∀ e ∈ al, ∀ a ∈ e.2, a.ctx = none → (a.name.toList.head? == some '*') = false
   san : ∀ e ∈ al, ∀ a ∈ e.2, a.isMark = true → a.ctx = none → sanitize a.name = a.name
   src : ∀ e ∈ al, ∃ sg, findGlyph i e.1 = some sg ∧ included i e.1 = true ∧
     ∀ a ∈ e.2, ∃ s ∈ sg.anchors, s.name = a.name ∧ a.x = quantize i.quant s.x ∧ a.y = quantize i.quant s.y ∧
@@ -62,7 +63,7 @@ theorem wf_nolib {i : Input} (h : wf i = true) : ∀ g ∈ i.glyphs, ∀ a ∈ g
 theorem alwf_of_ok {i : Input} {al : AList} (hwf : wf0 i = true) (h : anchorLists i = .ok al) : ALwf i al := by
   obtain ⟨hsan, hnd, _⟩ := wf_iff i hwf
   obtain ⟨h1, _, h3⟩ := anchorLists_ok h
-  refine ⟨wf_pre hwf, h3.nodup hnd, ?_, ?_, ?_, ?_, ?_⟩
+  refine ⟨wf_pre hwf, h3.nodup hnd, ?_, ?_, ?_, ?_, ?_, ?_⟩
   · intro e he
     obtain ⟨_, sg, _, _, _, hg⟩ := h1 e he
     exact (glyphAnchors_ok hg).2.2.1
@@ -75,6 +76,10 @@ theorem alwf_of_ok {i : Input} {al : AList} (hwf : wf0 i = true) (h : anchorList
     obtain ⟨s, _, hs⟩ := (glyphAnchors_ok hg).1 a ha
     obtain ⟨_, _, _, sh, _, h2⟩ := namedAnchor_some hs
     exact ⟨(h2 c hc).1, sh⟩
+  · intro e he a ha hc
+    obtain ⟨_, sg, _, _, _, hg⟩ := h1 e he
+    obtain ⟨s, _, hs⟩ := (glyphAnchors_ok hg).1 a ha
+    exact (namedAnchor_some hs).2.2.2.2.1 hc
   · intro e he a ha hmk hc
     obtain ⟨_, sg, hsg, _, _, hg⟩ := h1 e he
     obtain ⟨s, hs, hsa⟩ := (glyphAnchors_ok hg).1 a ha
@@ -93,11 +98,10 @@ theorem alwf_of_ok {i : Input} {al : AList} (hwf : wf0 i = true) (h : anchorList
     exact ⟨s, hs, e1.symm, e2, e3, fun c hc => (e4 c hc).2⟩
 
 /-! ### the name decides whether an anchor is a mark anchor, and its key -/
-theorem mark_of_same_name {a a' : NA} (ha : NAShape a) (ha' : NAShape a') (hn : a.name = a'.name)
+theorem mark_of_same_nm {nm : List Char} {a a' : NA} (ha : NAShapeOn nm a) (ha' : NAShapeOn nm a')
     (hm : a'.isMark = true) : a.isMark = true ∧ a.key = a'.key := by
   obtain ⟨e1, pk, _⟩ := ha'.mark hm
   obtain ⟨hka, _⟩ := (plainKey_iff _).mp pk
-  rw [← hn] at e1
   have hmark : a.isMark = true := by
     cases hmk : a.isMark with
     | true => rfl
@@ -128,6 +132,12 @@ theorem mark_of_same_name {a a' : NA} (ha : NAShape a) (ha' : NAShape a') (hn : 
   rw [e2] at e1
   simp only [cons.injEq, true_and] at e1
   exact String.toList_inj.mp e1
+
+theorem mark_of_same_name {a a' : NA} (ha : NAShape a) (ha' : NAShape a') (hn : a.name = a'.name)
+    (hm : a'.isMark = true) : a.isMark = true ∧ a.key = a'.key := by
+  unfold NAShape at ha ha'
+  rw [← hn] at ha'
+  exact mark_of_same_nm ha ha' hm
 
 /-- the key of the mark anchor named `n` -/
 def keyOfMarkName (n : String) : String := String.ofList (n.toList.drop 1)
